@@ -1,5 +1,6 @@
 import CE.Rules.Machine
 import CE.Rules.Table
+import CE.Rules.Markers
 /-
   C13 — markers and local references are consistent in every accepted document.
 
@@ -8,9 +9,15 @@ import CE.Rules.Table
   no marker on a marker/reference/record type ∧ identifiers valid.
   Proved here: the mechanisms, each at full strength for the function that implements it
   (`markObject`, `localReference`, `endDocument`, `validateIdentifier`, the marked-object
-  rows of the rule table).  The lift to whole documents (an invariant over `run`) is
-  `…_partial`: it is exercised by the WF.REL oracle against the independent grammar's
-  global conditions (`Spec.globalOK`) on every run.
+  rows of the rule table), and the first clause lifted to whole documents:
+  `every_reference_of_an_accepted_document_has_its_marker` - for EVERY event stream, if the
+  validator accepts all of it up to and including the end of the document, the identifier of every
+  local-reference event is among the markers registered at the end (an invariant over `run`:
+  CE/Rules/Markers.lean - what the validator "covers" only grows under each of the 45 statement
+  kinds, under nested rule calls and under every event; the end of the document is accepted only
+  with nothing waiting).  The other clauses (distinctness, type masks) over whole documents are
+  `…_partial`: exercised by the WF.REL oracle against the independent grammar's global
+  conditions (`Spec.globalOK`) on every run.
 -/
 namespace CE.Props.C13
 open CE CE.Rules
@@ -96,5 +103,17 @@ theorem identifier_checked (cfg : Cfg) (safe : Bytes → Bool) (id : Bytes) :
     · by_cases h2 : safe id = true
       · simp [h0, h1, h2]; omega
       · simp [h0, h1, h2]
+
+/-- in an accepted document every local reference names a registered marker -/
+theorem every_reference_of_an_accepted_document_has_its_marker (env : Env) (htbl : env.tbl = Model.ruleTable)
+    (evs : List Ev) (h : (run env RState.init (evs ++ [.endDoc]) 0).2.1 = none) :
+    ∀ id, Ev.refLocal id ∈ evs → id ∈ ((run env RState.init (evs ++ [.endDoc]) 0).2.2.marked.map (·.1)) :=
+  accepted_references_have_markers env htbl evs h
+
+/-- non-vacuity: a list with a forward reference and its marker is accepted -/
+example :
+    let env : Env := { tbl := Model.ruleTable, identSafe := fun _ => true }
+    (run env RState.init ([.beginDoc, .version 0, .list, .refLocal [97], .marker [97], .posInt 1, .endContainer] ++ [.endDoc]) 0).2.1 = none := by
+  decide +kernel
 
 end CE.Props.C13
